@@ -30,6 +30,24 @@ def published(a):
     if a.op in ("Gt", "Ge") and is_push_index(a.a): return True
     return False
 
+# "account n slots as read": the helper BlockNode::mark_slots_read, or its one primitive performed directly (`used.fetch_sub(n) == n`)
+MARK_PRIM = Call(A("fetch_sub"), on=Q + "::BlockNode.used", transitive=False)
+MARK = AnyEv(Call(re.escape(Q) + "::BlockNode::mark_slots_read", transitive=False), MARK_PRIM, transitive=False)
+
+def is_const_any(o):
+    while o[0] == "cast": o = o[1]
+    return o[0] == "const" and o[2] is not None
+def const_val(o):
+    while o[0] == "cast": o = o[1]
+    return int(o[2])
+
+def last_reader_edge(a):
+    """edge on which the taker learned that it read the last used slot of the block"""
+    if call_true(re.escape(Q) + "::BlockNode::mark_slots_read")(a): return True
+    if a.kind == "cmp" and a.op == "Eq":
+        return any(is_call_result(A("fetch_sub"))(x) for x in (a.a, a.b))
+    return False
+
 def check(ctx):
     cas = A("compare_exchange(_weak)?")
     PUSH = Q + "::Queue::push"
@@ -61,7 +79,7 @@ def check(ctx):
         ctx.guarded(fid, rd, published, fn + "/read-behind-publish", "%s reads a slot only behind an observation that it is published (index < tail.index)" % fn,
                     pred_label="edge `pop_index < push_index` / wait-loop exit")
         # pairing
-        mark = Call(re.escape(Q) + "::BlockNode::mark_slots_read", transitive=False)
+        mark = MARK
         marks = ctx.an.sites(f, mark, "must")
         es = ctx.edges(f, variant_of_call(cas, "Ok"))
         restore = ctx.an.sites(f, Call(A("store"), on=Q + "::BlockPtr.0", transitive=False), "must")
@@ -88,7 +106,7 @@ def check(ctx):
             r3 = ctx.an.reach(f, [q for s in marks for q in ctx.an.after(f, s)], blocked_edges=ctx.edge_blocker(f, variant_of_call(cas, "Err"))[0])
             dbl = [s for s in marks if s in r3]
             ctx.ob("R-PAIR", fid, fn + "/mark-once", not dbl, "slots are accounted once per claim" if not dbl else "%s can account the same claim twice (block freed early: use-after-free)" % fn, f.where(sorted(marks)[0]))
-        ctx.guarded(fid, Call(r"(std|alloc)::boxed::Box::from_raw", transitive=False), call_true(re.escape(Q) + "::BlockNode::mark_slots_read"), fn + "/free-only-last-reader",
+        ctx.guarded(fid, Call(r"(std|alloc)::boxed::Box::from_raw", transitive=False), last_reader_edge, fn + "/free-only-last-reader",
                     "a block is freed only by the taker whose mark_slots_read saw the last used slot", pred_label="edge `mark_slots_read()` is true")
         ctx.mo_floor(Q + "::BlockPtr.0", ("compare_exchange", "compare_exchange_weak"), "ACQREL", fn + "/head-cas", "claims are ordered; the next block pointer is handed between takers", only_in=re.escape(fid))
         ctx.mo_floor(Q + "::BlockPtr.0", ("store",), "REL", fn + "/head-store", "next head published to other takers", only_in=re.escape(fid), min_sites=1)
@@ -208,25 +226,41 @@ def check(ctx):
     if f is not None:
         cps = [(simplify(trace_operand(f, f.node(pt)["args"][1])), simplify(trace_operand(f, f.node(pt)["args"][2]))) for pt in sorted(ctx.an.sites(f, Call(re.escape(Q) + "::BlockNode::copy_to_bulk", transitive=False), "must"))]
         ok = False; site = None
-        for pt in sorted(ctx.an.sites(f, Call(re.escape(Q) + "::BlockNode::mark_slots_read", transitive=False), "must")):
+        for pt in sorted(ctx.an.sites(f, MARK, "must")):
             v = simplify(trace_operand(f, f.node(pt)["args"][1])); site = pt
             while v[0] == "field" and v[2] == "(tuple)": v = simplify(v[1])
             if v[0] == "bin" and v[1].startswith("Sub") and any(simplify(v[2]) == e and simplify(v[3]) == s0 for s0, e in cps): ok = True
         ctx.ob("R-ENUM", Q + "::Queue::bulk_pop", "bulk/mark-equals-copied-range", ok, "bulk_pop marks exactly `end - pop_index` slots read, the range it copied" if ok else
                "bulk_pop's mark_slots_read count is not the size of the copied range: the block is freed early (use-after-free) or never", f.where(site))
     # mark_slots_read: returns old == size
-    f = ctx.fn("R-PAIR", Q + "::BlockNode::mark_slots_read", "last-reader-detect")
-    if f is not None:
-        ok = False
-        for pt in f.points():
-            n = f.node(pt)
-            if not f.is_term(pt) and n["s"] == "=" and not n["l"]["p"] and n["l"]["l"] == 0:
-                o = simplify(trace_rvalue(f, n["rv"], 0))
-                if o[0] == "bin" and o[1] == "Eq":
-                    a, b = simplify(o[2]), simplify(o[3])
-                    if (is_call_result(A("fetch_sub"))(a) and b[0] == "arg") or (is_call_result(A("fetch_sub"))(b) and a[0] == "arg"): ok = True
+    def eq_of_fetch_sub_and(g, pred_other):
+        """is there `fetch_sub(..) == X` in g with pred_other(fetch_sub site bb, X)?"""
+        for pt in g.points():
+            n = g.node(pt)
+            if not g.is_term(pt) and n["s"] == "=" and n["rv"]["r"] == "bin" and n["rv"]["op"] == "Eq":
+                a, b = simplify(trace_operand(g, n["rv"]["a"])), simplify(trace_operand(g, n["rv"]["b"]))
+                for x, y in ((a, b), (b, a)):
+                    if is_call_result(A("fetch_sub"))(x) and x[0] == "call" and pred_other(x[1], y): return True
+        return False
+    if ctx.prog.fn(Q + "::BlockNode::mark_slots_read") is not None:
+        f = ctx.fn("R-PAIR", Q + "::BlockNode::mark_slots_read", "last-reader-detect")
+        ok = eq_of_fetch_sub_and(f, lambda bb, y: y[0] == "arg")
         ctx.ob("R-PAIR", Q + "::BlockNode::mark_slots_read", "last-reader-detect", ok, "mark_slots_read reports `old == size` of its fetch_sub (exactly one caller sees the count reach 0)" if ok else
                "mark_slots_read no longer returns `fetch_sub(size) == size`", f.where())
+    else:
+        # the helper was inlined by hand: every taker that decrements `used` itself compares the old value with the amount it subtracted
+        n_prim = 0
+        for fn in ("pop", "local_pop", "bulk_pop"):
+            g = ctx.prog.fn(Q + "::Queue::" + fn)
+            if g is None: continue
+            for pt in sorted(ctx.an.sites(g, MARK_PRIM, "must")):
+                n_prim += 1
+                amt = simplify(trace_operand(g, g.node(pt)["args"][1]))
+                ok = eq_of_fetch_sub_and(g, lambda bb, y, pt=pt, amt=amt: bb == pt.bb and (y == amt or (is_const_any(y) and is_const_any(amt) and const_val(y) == const_val(amt))))
+                ctx.ob("R-PAIR", g.id, "last-reader-detect", ok, "%s compares `used.fetch_sub(n)` with the same n (exactly one taker sees the count reach 0)" % g.id if ok else
+                       "%s decrements `used` by n but does not test `old == n`: the last reader is not detected (block leaked) or detected twice" % g.id, g.where(pt))
+        if not n_prim:
+            ctx.missing("R-PAIR", Q + "::BlockNode::mark_slots_read", "last-reader-detect", "neither mark_slots_read nor a direct `used.fetch_sub` in the takers")
     # no task dropped on a normal path
     for fid in (PUSH, Q + "::Queue::pop", Q + "::Queue::local_pop", Q + "::Steal::steal_into", Q + "::Local::push_back", Q + "::Local::pop"):
         f = ctx.fn("R-LIN", fid, "no-task-dropped")
